@@ -100,6 +100,8 @@ def ev(e):
     """Evaluate an expression tree to a Python object."""
     if isinstance(e, list):
         return [ev(x) for x in e]
+    if isinstance(e, str):
+        return e.replace(WORLD_TAG, C.root) if WORLD_TAG in e else e
     if not isinstance(e, dict):
         return e
     if "$lit" in e:
